@@ -1,7 +1,7 @@
 /-
 C14 — header import leaves the stores equal to the file, or consistent on failure.
 -/
-import Neutrino.Lemmas.Import
+import Neutrino.Lemmas.ImportChain
 import Neutrino.Gen.Import
 namespace Neutrino.Import
 
@@ -255,6 +255,105 @@ theorem C14_failure_partial (F : File) (cfg : Cfg) (st : Stores) (e : Err) (hh :
     have hu := usable_mk B Fl hl1 hl2
     simp only [failContentOk, hu, e3, e4, Nat.sub_self, List.take_zero, List.append_nil, beq_self_eq_true, heq,
       Nat.le_refl, decide_true, Bool.or_true, Bool.true_or, Bool.and_self, Nat.lt_irrefl, decide_false, Bool.false_or]
+
+/-- chain facts for level stores and a file from height 0 that passed all checks -/
+theorem chain_level_zero (F : File) (bs : Nat) (B : List BHdr) (Fl : List Nat)
+    (hs : F.bstart = 0) (hl : B.length ≥ 1) (heq : B.length = Fl.length)
+    (hc : continuity F (mk B Fl) = none) (hv : validateBlocks F.blocks bs = true) :
+    (F.blocks.drop B.length).all (·.valid) = true ∧
+    (connected B = true → connected (B ++ F.blocks.drop B.length) = true) := by
+  have hpairs := validateBlocks_pairsOk _ _ hv
+  constructor
+  · have : F.blocks.drop B.length = (F.blocks.drop 1).drop (B.length - 1) := by
+      rw [List.drop_drop]; congr 1; omega
+    rw [this]
+    exact all_drop _ _ _ (pairsOk_tail_valid _ hpairs)
+  · intro hcb
+    cases hD : F.blocks.drop B.length with
+    | nil => rw [List.append_nil]; exact hcb
+    | cons c D =>
+      have hcD : connected (c :: D) = true := by
+        rw [← hD]; exact connected_drop _ _ (pairsOk_connected _ hpairs)
+      have hca : F.blocks[B.length]? = some c := by
+        have := congrArg (fun l => l[0]?) hD
+        simpa [List.getElem?_drop] using this
+      have hlt : B.length < F.blocks.length := by
+        rcases Nat.lt_or_ge B.length F.blocks.length with h | h
+        · exact h
+        · rw [List.drop_eq_nil_of_le h] at hD; simp at hD
+      have hfacts := (continuity_overlap_iff F (mk B Fl) (B.length - 1) (Fl.length - 1)
+        (bChainTip_mk B Fl hl) (fChainTip_mk B Fl (by omega)) (by omega)).mp hc
+      unfold overlapFacts at hfacts
+      have hoe : min (min (B.length - 1) (Fl.length - 1)) (endHeight F) = B.length - 1 := by
+        unfold endHeight; omega
+      rw [hoe] at hfacts
+      have hconn := hfacts.2.2 (by unfold endHeight; omega)
+      unfold connects at hconn
+      have h1 : B.length - 1 + 1 - F.bstart = B.length := by omega
+      rw [h1, hca] at hconn
+      have hBm : (mk B Fl).blocks = B := rfl
+      rw [hBm] at hconn
+      cases hp : B[B.length - 1]? with
+      | none => rw [hp] at hconn; simp at hconn
+      | some p =>
+        rw [hp] at hconn
+        simp only [beq_iff_eq] at hconn
+        exact connected_append_cons B p c D hcb (by rw [List.getLast?_eq_getElem?]; exact hp) hconn hcD
+
+/-- **Chain clause of success, outside the recorded shape.**  If `Import` reports
+success, the block chain stored is connected (given that it was before) and every
+appended header is valid.  What exactly is validated: the validator pair-checks
+(PrevBlock link + contextual check + sanity/proof of work of the SECOND header)
+every consecutive pair of the file, inside a batch or across two batches; the
+FIRST header of the file is sanity-checked only when the first batch has length
+one (`validateBlocks`).  For a file starting at height 0 this gap cannot let an
+unvalidated header into the stores: the stores always hold genesis (height ≥ 1
+entries), so what is appended is `file.drop k` with `k ≥ 1` — headers that were
+each the second element of a passed pair check — the first of them additionally
+checked to link to the block-store tip (`validateHeaderConnection`); the file's
+first header is never written, it is only compared with the stores' own genesis
+(`verifyHeadersAtTargetHeight`).  (For a file starting above 0 the first header
+can be the first one appended; that is inside the recorded shape F7.) -/
+theorem C14_success_chain_valid_partial (F : File) (cfg : Cfg) (st : Stores) (hh : Healthy st) (heq : EqualHeights st)
+    (hbs : cfg.bs ≥ 1) (hshape : f7Shape (obsOf st) F = false)
+    (hok : (importStores F cfg st).1 = none) :
+    chainOk (obsOf st) (obsOf (importStores F cfg st).2) = true := by
+  obtain ⟨hl1, hl2⟩ := healthy_len st hh
+  have hmk := healthy_eq_mk st hh
+  unfold EqualHeights at heq
+  obtain ⟨B, Fl, rfl⟩ : ∃ B Fl, st = mk B Fl := ⟨_, _, hmk⟩
+  have heq : B.length = Fl.length := heq
+  have hl1 : B.length ≥ 1 := hl1
+  have hl2 : Fl.length ≥ 1 := hl2
+  unfold importStores at hok ⊢
+  simp only at hok ⊢
+  have e3 : ∀ B Fl, (obsOf (mk B Fl)).blocks = B := fun _ _ => rfl
+  by_cases hs : F.bstart = 0
+  · have hp := importRun_zero F cfg B Fl B.length hs hbs rfl heq.symm hl1
+    obtain ⟨_, hst⟩ := hp.1 hok
+    obtain ⟨_, hc, hv⟩ := importRun_ok_facts F cfg _ hok
+    obtain ⟨hval, hconn⟩ := chain_level_zero F cfg.bs B Fl hs hl1 heq hc hv
+    rw [hst]
+    simp only [chainOk, e3, List.drop_left', hval, Bool.and_true, Bool.or_eq_true, Bool.not_eq_true']
+    cases hcb : connected B with
+    | false => exact Or.inl rfl
+    | true => exact Or.inr (hconn hcb)
+  · have he : endHeight F ≤ B.length - 1 := by
+      have e4 : ∀ B Fl, (obsOf (mk B Fl)).filters = Fl := fun _ _ => rfl
+      simp only [f7Shape, Bool.and_eq_false_iff, decide_eq_false_iff_not, e3, e4] at hshape
+      rcases hshape with h | h
+      · omega
+      · rw [← heq, Nat.min_self] at h; omega
+    have hp := importRun_covered F cfg B Fl B.length rfl heq.symm hl1 he
+    rw [hp.1]
+    simp only [chainOk, e3, List.drop_length, List.all_nil, Bool.and_true, Bool.or_eq_true, Bool.not_eq_true']
+    cases connected B <;> simp
+
+/-- the validator's gap, as a fact of the model: with a first batch of two or
+more headers a file whose FIRST header fails the sanity check (bad proof of work)
+is accepted; with batch size 1 it is rejected -/
+example : validateBlocks [⟨1, 0, false⟩, ⟨2, 1, true⟩, ⟨3, 2, true⟩] 2 = true ∧
+    validateBlocks [⟨1, 0, false⟩, ⟨2, 1, true⟩, ⟨3, 2, true⟩] 1 = false := by decide
 
 /-- The facts regenerated from chainimport/headers_import.go on this run that the
 model transcribes: `processBatch` hands `batchStart` — which `appendNewHeaders`
